@@ -18,7 +18,7 @@ import (
 func init() {
 	Registry["C19"] = &Check{
 		Scenarios: c19Scenarios,
-		Rule: "S in {1,2} streams (stream numbers rotating over {0,1,5}, {16,0,65535}, {21,15,0}, {1,17,16} from one history to the next): per stream every sequence of <=2 messages over sizes {20 (header only), 40, 1100 bytes} from a list of eight; each stream's bytes cut into <=3 chunks at every choice of <=2 cut points from {inside the first header, header/body border, inside the body, message border, inside the second header, spanning point}; ALL merges (interleavings) of the per-stream chunk sequences; then EOF. Bursts: between the two chunks of one stream's 40-byte message (cut at 10, 20, 30) a burst of another stream {30, 64, 66, 70, 140 x 1000 bytes, 100 x 1100, 3 x 30000, 192 x 1024} arrives, one message per chunk or re-cut into 8000-byte chunks, with or without a short message of a third stream in its middle (stream buffers of 30 KB to 192 KiB). S = 5: the first stream's message (40 or 1100 bytes) in two chunks around whole messages of four other streams with sizes from {40,48,56,80} (all 256 assignments x 24 arrival orders). S = 3: single messages of 20, 40 and 48 bytes per stream with <=1 cut, all merges (thorough: also the general family with <=1 cut). The chunks are fed through the in-memory SCTP backend (partial delivery: a read returns at most the buffer size of the head chunk) to a real diam.Conn created with diam.NewConn over diam.NewSCTPConnBackend, i.e. consumed by the library's own reader loop; the handler records (message, MessageStream()) and answers. One deterministic schedule per history (the quantifier is over chunk histories). Last clause: additionally the deferred-answer grid of C16 (all 16 stream pairs x 0-2 temporarily failing write attempts) and two application goroutines answering requests of streams {3,5} / {0,7} concurrently, every schedule up to preemption bound 2.",
+		Rule: "S in {1,2} streams (stream numbers rotating over {0,1,5}, {16,0,65535}, {21,15,0}, {1,17,16} from one history to the next): per stream every sequence of <=2 messages over sizes {20 (header only), 40, 1100 bytes} from a list of eight; each stream's bytes cut into <=3 chunks at every choice of <=2 cut points from {inside the first header, header/body border, inside the body, message border, inside the second header, spanning point}; ALL merges (interleavings) of the per-stream chunk sequences; then EOF. Bursts: between the two chunks of one stream's 40-byte message (cut at 10, 20, 30) a burst of another stream {30, 64, 66, 70, 140 x 1000 bytes, 100 x 1100, 3 x 30000, 192 x 1024} arrives, one message per chunk or re-cut into 8000-byte chunks, with or without a short message of a third stream in its middle (stream buffers of 30 KB to 192 KiB). More than sixteen streams: 15, 16, 17 or 20 streams deliver a whole message each behind the stalled first message of stream 0; behind its stalled second message one of them delivers again and a never-seen stream delivers for the first time (either order, four size assignments). S = 5: the first stream's message (40 or 1100 bytes) in two chunks around whole messages of four other streams with sizes from {40,48,56,80} (all 256 assignments x 24 arrival orders). S = 3: single messages of 20, 40 and 48 bytes per stream with <=1 cut, all merges (thorough: also the general family with <=1 cut). The chunks are fed through the in-memory SCTP backend (partial delivery: a read returns at most the buffer size of the head chunk) to a real diam.Conn created with diam.NewConn over diam.NewSCTPConnBackend, i.e. consumed by the library's own reader loop; the handler records (message, MessageStream()) and answers. One deterministic schedule per history (the quantifier is over chunk histories). Last clause: additionally the deferred-answer grid of C16 (all 16 stream pairs x 0-2 temporarily failing write attempts) and two application goroutines answering requests of streams {3,5} / {0,7} concurrently, every schedule up to preemption bound 2.",
 		Assume: []string{"the in-memory backend models one-to-one-socket recvmsg partial delivery (hook diam/sctp_verif.go, build tag verif)", "single default schedule per history"},
 		QuickBudget: 150, ThoroughBudget: 2400,
 	}
@@ -293,6 +293,9 @@ func c19Scenarios(tier string) []*Scenario {
 	// a long burst of one stream (below, around and beyond 64 KiB, up to 192 KiB) piles up in its
 	// stream buffer while the message of another stream is stalled in the middle of its assembly
 	out = append(out, &Scenario{Name: "streams/burst-behind-a-stalled-stream", Seq: c19Burst})
+	// more streams than the 16 the library sizes its tables for: 15..20 parked streams, then a
+	// second round in which a parked stream and a never-seen stream deliver behind a stalled message
+	out = append(out, &Scenario{Name: "streams/more-than-sixteen", Seq: c19Many})
 	// replies written later, while another stream's request is being handled, with and without
 	// temporary write errors that are retried (shared with C16)
 	out = append(out, &Scenario{Name: "streams/deferred-answer", Seq: c16Deferred})
@@ -456,5 +459,64 @@ func c19Burst(r *SeqResult) {
 	}
 	if r.Sample == "" {
 		r.Sample = "bursts of 30..192 messages (30 KB..192 KiB) of one stream between the two chunks of another stream's message"
+	}
+}
+
+// c19Many: round one - the first message of stream index 0 stalls inside its header while whole
+// messages of N other streams arrive (N in {15, 16, 17, 20}: around and beyond the library's
+// default of 16 inbound streams), then completes and everything drains. Round two - the second
+// message of stream 0 stalls again; a second message arrives on one of the parked streams k and a
+// first message on a stream never seen before (in either order); stream 0 completes.
+func c19Many(r *SeqResult) {
+	saved := c19Streams
+	defer func() { c19Streams = saved; r.Capped += c19Capped; c19Capped = 0 }()
+	sizes := []int{40, 48, 56, 80}
+	for _, N := range []int{15, 16, 17, 20} {
+		for _, k := range []int{1, N / 2, N} {
+			for _, newFirst := range []bool{false, true} {
+				for rot := 0; rot < 4; rot++ {
+					c19Streams = nil
+					for i := 0; i <= N+1; i++ {
+						c19Streams = append(c19Streams, uint16(i))
+					}
+					a, b := c19Msg(0, 0, 40), c19Msg(0, 1, 40)
+					cfgs := []streamCfg{{sizes: []int{40, 40}, chunks: [][]byte{a[:10], a[10:], b[:10], b[10:]}, desc: "sizes[40 40] cuts[10 40 50]"}}
+					order := []int{0}
+					for i := 1; i <= N; i++ {
+						sz := sizes[(i+rot)%4]
+						c := streamCfg{sizes: []int{sz}, chunks: [][]byte{c19Msg(i, 0, sz)}, desc: fmt.Sprintf("sizes[%d]", sz)}
+						if i == k {
+							sz2 := sizes[(i+rot+1)%4]
+							c.sizes = append(c.sizes, sz2)
+							c.chunks = append(c.chunks, c19Msg(i, 1, sz2))
+							c.desc = fmt.Sprintf("sizes[%d %d] cuts[%d]", sz, sz2, sz)
+						}
+						cfgs = append(cfgs, c)
+						order = append(order, i)
+					}
+					szn := sizes[rot]
+					cfgs = append(cfgs, streamCfg{sizes: []int{szn}, chunks: [][]byte{c19Msg(N+1, 0, szn)}, desc: fmt.Sprintf("sizes[%d]", szn)})
+					order = append(order, 0, 0)
+					if newFirst {
+						order = append(order, N+1, k)
+					} else {
+						order = append(order, k, N+1)
+					}
+					order = append(order, 0)
+					r.Cases++
+					r.Distinct++
+					if r.Violation != "" {
+						continue
+					}
+					if v := c19Run(cfgs, order); v != "" {
+						r.Violation = fmt.Sprintf("%s | %d streams parked behind the stalled first message of stream 0, then stream %d again and the new stream %d behind its stalled second message; chunk arrival order (stream index) %v", v, N, k, N+1, order)
+						r.Case = map[string]interface{}{"N": N, "k": k, "newFirst": newFirst, "rot": rot, "order": order}
+					}
+				}
+			}
+		}
+	}
+	if r.Sample == "" {
+		r.Sample = "15..20 streams parked behind a stalled message, then a parked stream and a never-seen stream deliver behind the next stalled message"
 	}
 }
